@@ -1,18 +1,10 @@
 (* C01: quote_words round-trips through systemd's exec-line splitter. *)
-From QV Require Import Model.Base Generated.Tables Model.Quote Spec.SdExtract.
+From QV Require Import Model.Base Generated.Tables Model.Quote Spec.SdExtract Proofs.Util.
 Open Scope N_scope.
 
 Lemma word_cons fl s acc c r : word fl s acc (c :: r) =
   match step fl s acc c with SErr => None | Done w => Some (Some (w, r)) | More s' acc' => word fl s' acc' r end.
 Proof. reflexivity. Qed.
-
-Fixpoint upto (n : nat) : list N := match n with O => [] | S k => upto k ++ [N.of_nat k] end.
-Lemma upto_in n c : c < N.of_nat n -> In c (upto n).
-Proof.
-  induction n as [|n IH]; intros H; [lia|].
-  cbn [upto]. apply in_or_app.
-  destruct (N.eq_dec c (N.of_nat n)) as [->|Hne]; [right; left; reflexivity|left; apply IH; lia].
-Qed.
 
 (* one escaped character inside double quotes decodes to itself: c < 129 by kernel-checked enumeration
    (with symbolic accumulator and rest), c >= 129 by arithmetic *)
